@@ -35,9 +35,14 @@ func cmdC14(args []string) int {
 		pairs = append(pairs, p)
 	}
 	sort.Strings(pairs)
+	var shapes []string
+	for p := range st.ViewShapes {
+		shapes = append(shapes, p)
+	}
+	sort.Strings(shapes)
 	trace.WriteJSON(filepath.Join(*out, "stats.json"), map[string]interface{}{
 		"chains": st.Chains, "blocks": st.Blocks, "ethTxs": st.EthTxs, "schedules": st.Schedules, "crashes": st.Crashes,
-		"rpcQueries": st.RpcQueries, "events": st.Events, "classes": st.Classes, "pairs": pairs, "goMismatch": st.GoMismatch, "stuck": st.Stuck})
+		"rpcQueries": st.RpcQueries, "events": st.Events, "classes": st.Classes, "pairs": pairs, "viewShapes": shapes, "goMismatch": st.GoMismatch, "stuck": st.Stuck})
 	fmt.Println("chains", st.Chains, "schedules", st.Schedules, "crashes", st.Crashes, "rpc", st.RpcQueries, "events", st.Events,
 		"classes", st.Classes, "pairs", len(pairs), "goMismatch", st.GoMismatch, "stuck", len(st.Stuck))
 	if len(st.Stuck) > 0 {
